@@ -46,6 +46,7 @@ type RunConfig struct {
 	BadgerCache   int     `json:"badger_cache"`
 	Straggler     int     `json:"straggler"`
 	Synthetic     bool    `json:"synthetic"`
+	PJoinerBadger float64 `json:"p_joiner_badger,omitempty"`
 	StragglerP    float64 `json:"straggler_p"`
 	Variants      int     `json:"variants"`
 	TxStyle       string  `json:"tx_style"` // "unique" | "mixed"
